@@ -61,7 +61,8 @@ class VariantMatcher:
 
         self.variant_candidates = variant_candidates
         self.use_cache = use_cache
-        self.req_resp_cache: Dict[bytes, bytes] = {}
+        # maps (use_physical_addressing, request) to the response received for it
+        self.req_resp_cache: Dict[Tuple[bool, bytes], bytes] = {}
         self._recent_ident_response: Optional[bytes] = None
 
         self._state = VariantMatcher.State.PENDING
@@ -108,15 +109,21 @@ class VariantMatcher:
                     # real services, but the request is used as key of the cache
                     req_bytes = bytes(matching_param.get_ident_service(variant).encode_request())
 
-                    if self.use_cache and req_bytes in self.req_resp_cache:
-                        resp_values = copy(self.req_resp_cache[req_bytes])
+                    use_physical_addressing = True
+                    if isinstance(matching_param, MatchingBaseVariantParameter):
+                        use_physical_addressing = matching_param.use_physical_addressing
+
+                    # the same request may be answered differently if
+                    # it is sent using functional instead of physical
+                    # addressing, so the addressing scheme is part of
+                    # the cache key
+                    cache_key = (use_physical_addressing, req_bytes)
+                    if self.use_cache and cache_key in self.req_resp_cache:
+                        resp_values = copy(self.req_resp_cache[cache_key])
                     else:
-                        if isinstance(matching_param, MatchingBaseVariantParameter):
-                            yield matching_param.use_physical_addressing, req_bytes
-                        else:
-                            yield True, req_bytes
+                        yield use_physical_addressing, req_bytes
                         resp_values = self._get_ident_response()
-                        self._update_cache(req_bytes, copy(resp_values))
+                        self._update_cache(cache_key, copy(resp_values))
 
                     cur_response_matches = self._ident_response_matches(
                         variant, matching_param, resp_values)
@@ -200,9 +207,9 @@ class VariantMatcher:
 
         return False
 
-    def _update_cache(self, req_bytes: bytes, resp_bytes: bytes) -> None:
+    def _update_cache(self, cache_key: Tuple[bool, bytes], resp_bytes: bytes) -> None:
         if self.use_cache:
-            self.req_resp_cache[req_bytes] = resp_bytes
+            self.req_resp_cache[cache_key] = resp_bytes
 
     def _get_ident_response(self) -> bytes:
         if not self._recent_ident_response:
